@@ -495,6 +495,17 @@ def corr_css_stream(check, ctx, c, rng):
                 if one is not None and not outside_agree(name, data):
                     ctx.violate('stream reader = one-shot for every chunking', w,
                                 {'stream': 'raises', 'one_shot': one, 'encoding_used': name})
+                    continue
+                # which turn of the read() loop raised, and what had been decoded before (model: rstepE)
+                k = len(st.marks)                      # stream.read() calls made = turns started
+                done = rd.charbuffer
+                marks = st.marks + [len(done)]
+                outs = [done[a:b] for a, b in zip(marks, marks[1:])][:k - 1]
+                line = ' '.join([enc(o) for o in outs] + ['RAISE']) + ' | X'
+                if m is not None:
+                    mm = m.rsplit('|', 1)[0]
+                    if norm(mm) != norm(line):
+                        ctx.disagree('StreamReader over CPython inner codecs (raising turn)', w, line, mm)
                 continue
             # oracle (T7.7): always a prefix of one-shot; all of it when the reader started and nothing is pending
             if one is not None and not one.startswith(got):
